@@ -7,7 +7,10 @@
 // order, the asynchronous read mode with seeks, shared Schema/Encoding/Codec
 // values, independent typed writers/readers of the same Go row types over a
 // catalogue of row shapes - shapes.go -, independent writers with codec values
-// and options of their own - configs.go).  Every scenario first computes the serial result of the same work
+// and options of their own - configs.go -, writers and direct callers sharing
+// one Codec value per codec configuration - sharedcodec.go -, the first Check
+// of (compressed) bloom filters on freshly opened shared Files -
+// bloomfirst.go).  Every scenario first computes the serial result of the same work
 // (file bytes, canonical rows, index contents) and then runs it concurrently
 // and compares.  Goroutine bodies recover panics, every scenario instance runs
 // under a deadline, the events of the reference counted page buffers are
@@ -2776,7 +2779,7 @@ func runWithDeadline(cmd *exec.Cmd, d time.Duration) error {
 
 func run(c *core.Ctx) {
 	c.Res.Exhaustive = false
-	c.Res.Rule = "stress exploration, not enumeration: for GOMAXPROCS in {1,2,4,16} every scenario instance draws a seed from the harness PRNG and derives everything from it (files of 500..3000 rows with a unique row id, optional, string, dictionary, byte array, list and double columns, pages of 64..256 bytes, 2-4 row groups, bloom filters, all six codecs, data pages v1/v2; gen.Case schemas for the writers; 4..36 goroutines with seeds of their own). Scenarios: A many goroutines on one File opened lazily (SkipPageIndex+SkipBloomFilters; index racers meet behind a barrier at every fresh chunk; plain, yielding and sleeping io.ReaderAt) or eagerly; B independent writers/readers/buffers; C one goroutine per ColumnWriter; D concurrently filled row groups committed in order; D-parent-pending programs of 1-2 rounds over 1-4 row groups (reused after Commit) in which the parent writer itself receives rows before, while and after the row groups are filled - through WriteRows, through its ColumnWriters (WriteRowValues, one goroutine per column) or through the typed Write, alone or mixed, with Flush calls - on NewGenericWriter[any]/NewWriter with gen.Case schemas and NewGenericWriter[T]/NewWriter with a struct type: besides serial = concurrent bytes, the row groups and rows read back must be those of the serial specification (pending rows are flushed before a committed row group; equal to what one writer produces from WriteRows/Flush alone and to commit_all of the extracted model), failing programs are shrunk on the serial run; E async read mode histories with seeks (storms ReadPage, [sleep|yield], SeekToRow far away [twice], ReadPage); F one fresh *Schema first used inside the race; G pages retained and handed to other goroutines; H independent writers/readers/buffers of the same Go row TYPES at once, over a catalogue of row shapes (" + shapeNames() + "): 2-6 workers per shape, all shapes at once, each worker with rows of its own through every path from Go values to a file and back (GenericWriter[T].Write, Writer.Write(any), GenericBuffer[T].Write, GenericReader[T].Read, Reader.Read(&row), Schema.Deconstruct/Reconstruct, Reconstruct into a destination with interface fields), with the implicit Schema (the one SchemaOf caches per type for the whole process) or an explicit fresh *Schema first used inside the race - file bytes and the Go values read back (canonical JSON) equal the worker's serial run, failures shrunk to the shape alone / 2 workers / fewer rows; I independent writers with configurations OF THEIR OWN (a Codec value per writer: zstd level 1-4 and concurrency, gzip levels -2..9, brotli quality 0-9 and window, lz4 levels, snappy, none; page buffer 1-64 KiB, data pages v1/v2, 1-3 row groups, default encodings plain/delta/dictionary, dictionary limit, statistics, bloom filters; most writers have a sibling with the same rows and options and another level of the same codec) in three phases - each alone after the process-wide pools were emptied (two GCs), all together, each alone again in another order with the pools as the others left them - the bytes and rows of a writer in phases 2 and 3 equal those of the writer alone, failures shrunk to a pair of writers and fewer rows (a note counts the sibling pairs whose bytes differ alone: the comparison can tell the levels apart); J the FIRST use of Go types no cache of the process has seen: every instance makes 20-160 new struct types with reflect.StructOf (1-64 fields of int64/int32/float64/string/bool/[]byte/*int64/[]int64 and nested struct/*struct/[]struct of new types as well, tagged or not, one field with a process-unique name at every level; one type in four is the flat Go type of a wide table, 100-400 fields, written through explicit Schemas of about eight of its columns), 2-8 independent workers per type with values of their own meet behind a barrier right in front of the first call that depends on the type, three of these paths per type: " + strings.Join(jPaths, "; ") + " (explicit Schema = built by hand, columns left out and a column the type does not have) - bytes, canonical rows and values of each worker equal those of the same worker run serially afterwards and (worker 0) of a serial worker that met a twin of the type first, failures shrunk by trying again with new types (one path, 2 workers, 1 row, half the fields); K histories with REDUNDANT Close calls followed by further independent use: for each closer of the read side (" + closerNames() + ") 6-21 histories 'make it, use it not at all / a little / to the end, Close 1-3 times' run by one goroutine or 2-4 at once on 2-3 files (default or one custom read buffer size), then 4-8 independent readers with a File of their own (Rows with seeks, Pages of every column, GenericReader[T], async read mode) and a writer of the same rows, serially, concurrently and serially again, must read the rows and write the bytes of the serial answer computed before anything was closed twice - the closer whose histories were followed by the first failure is reported; H, J, K run in a process of their own (a torn cache or a buffer owned twice ends in a fatal error of the runtime as easily as in wrong rows); mixed = A+B+D+E+G at once. Each instance first computes the serial answer of the same work and compares bytes (sha256), canonical rows, page layout, index and bloom filter contents and pointer identity. A, E, G are also run alone with the buffer event sink installed; the traces are checked against the per-buffer reference counting automaton (and the extracted model). A case = one scenario instance; non-trivial = at least 2 worker goroutines ran and the compared output is non-empty; distinct by (scenario, GOMAXPROCS, seed, scale)."
+	c.Res.Rule = "stress exploration, not enumeration: for GOMAXPROCS in {1,2,4,16} every scenario instance draws a seed from the harness PRNG and derives everything from it (files of 500..3000 rows with a unique row id, optional, string, dictionary, byte array, list and double columns, pages of 64..256 bytes, 2-4 row groups, bloom filters, all six codecs, data pages v1/v2; gen.Case schemas for the writers; 4..36 goroutines with seeds of their own). Scenarios: A many goroutines on one File opened lazily (SkipPageIndex+SkipBloomFilters; index racers meet behind a barrier at every fresh chunk; plain, yielding and sleeping io.ReaderAt) or eagerly; B independent writers/readers/buffers; C one goroutine per ColumnWriter; D concurrently filled row groups committed in order; D-parent-pending programs of 1-2 rounds over 1-4 row groups (reused after Commit) in which the parent writer itself receives rows before, while and after the row groups are filled - through WriteRows, through its ColumnWriters (WriteRowValues, one goroutine per column) or through the typed Write, alone or mixed, with Flush calls - on NewGenericWriter[any]/NewWriter with gen.Case schemas and NewGenericWriter[T]/NewWriter with a struct type: besides serial = concurrent bytes, the row groups and rows read back must be those of the serial specification (pending rows are flushed before a committed row group; equal to what one writer produces from WriteRows/Flush alone and to commit_all of the extracted model), failing programs are shrunk on the serial run; E async read mode histories with seeks (storms ReadPage, [sleep|yield], SeekToRow far away [twice], ReadPage); F one fresh *Schema first used inside the race; G pages retained and handed to other goroutines; H independent writers/readers/buffers of the same Go row TYPES at once, over a catalogue of row shapes (" + shapeNames() + "): 2-6 workers per shape, all shapes at once, each worker with rows of its own through every path from Go values to a file and back (GenericWriter[T].Write, Writer.Write(any), GenericBuffer[T].Write, GenericReader[T].Read, Reader.Read(&row), Schema.Deconstruct/Reconstruct, Reconstruct into a destination with interface fields), with the implicit Schema (the one SchemaOf caches per type for the whole process) or an explicit fresh *Schema first used inside the race - file bytes and the Go values read back (canonical JSON) equal the worker's serial run, failures shrunk to the shape alone / 2 workers / fewer rows; I independent writers with configurations OF THEIR OWN (a Codec value per writer: zstd level 1-4 and concurrency, gzip levels -2..9, brotli quality 0-9 and window, lz4 levels, snappy, none; page buffer 1-64 KiB, data pages v1/v2, 1-3 row groups, default encodings plain/delta/dictionary, dictionary limit, statistics, bloom filters; most writers have a sibling with the same rows and options and another level of the same codec) in three phases - each alone after the process-wide pools were emptied (two GCs), all together, each alone again in another order with the pools as the others left them - the bytes and rows of a writer in phases 2 and 3 equal those of the writer alone, failures shrunk to a pair of writers and fewer rows (a note counts the sibling pairs whose bytes differ alone: the comparison can tell the levels apart); J the FIRST use of Go types no cache of the process has seen: every instance makes 20-160 new struct types with reflect.StructOf (1-64 fields of int64/int32/float64/string/bool/[]byte/*int64/[]int64 and nested struct/*struct/[]struct of new types as well, tagged or not, one field with a process-unique name at every level; one type in four is the flat Go type of a wide table, 100-400 fields, written through explicit Schemas of about eight of its columns), 2-8 independent workers per type with values of their own meet behind a barrier right in front of the first call that depends on the type, three of these paths per type: " + strings.Join(jPaths, "; ") + " (explicit Schema = built by hand, columns left out and a column the type does not have) - bytes, canonical rows and values of each worker equal those of the same worker run serially afterwards and (worker 0) of a serial worker that met a twin of the type first, failures shrunk by trying again with new types (one path, 2 workers, 1 row, half the fields); K histories with REDUNDANT Close calls followed by further independent use: for each closer of the read side (" + closerNames() + ") 6-21 histories 'make it, use it not at all / a little / to the end, Close 1-3 times' run by one goroutine or 2-4 at once on 2-3 files (default or one custom read buffer size), then 4-8 independent readers with a File of their own (Rows with seeks, Pages of every column, GenericReader[T], async read mode) and a writer of the same rows, serially, concurrently and serially again, must read the rows and write the bytes of the serial answer computed before anything was closed twice - the closer whose histories were followed by the first failure is reported; L the FIRST Check of a bloom filter on a freshly opened shared File: files of 12000..36000 rows (thorough 40000..120000) in 1-3 row groups with filters of 8-24 bits per value on four columns, written with every bloom filter compression the writer offers (option not given, Uncompressed, Gzip default and levels 1/9/-2/0), 6 (10) fresh Files per file opened with default options / SkipBloomFilters / PrefetchBloomFilters / OptimisticRead / SkipPageIndex+SkipBloomFilters over a plain, yielding or sleeping io.ReaderAt, 2-16 (32) goroutines meet behind a barrier in front of every fresh chunk and issue their first Checks (two values present in the row group, one absent, of their own) at once - every answer (found, error) equals the answer of a File used by one goroutine, present values are (true, nil); failures shrunk to two goroutines on the one filter; M writers SHARING one Codec value: one value per configuration the compress packages offer (uncompressed, snappy, gzip levels -2..9, brotli qualities 0-9 with a window, zstd levels 1-4 with a concurrency, lz4 Fastest/Fast/Level1..Level9 - all of them in every instance), given through parquet.Compression to 3-4 (thorough 3-5) independent writers with rows of their own (compressible text and blobs, page buffers 8-200 KiB so that page bodies run from a few KiB to more than 64 KiB, several pages per column), run alone one after the other and then all at once (1-6 times, so that a fast configuration spends as long together as a slow one), then the same goroutines call Encode and Decode of the value directly on buffers of 3 and 70 (slow configurations 24) KiB of their own (1-64 times) - bytes written together equal the bytes written alone (a panic or error in a writer differs), direct Encode equals the serial Encode, direct Decode gives the source (GOMAXPROCS 2/4/16 only: on one processor calls do not meet inside a codec); failures shrunk to two writers and fewer rows; H, J, K run in a process of their own (a torn cache or a buffer owned twice ends in a fatal error of the runtime as easily as in wrong rows); mixed = A+B+D+E+G at once. Each instance first computes the serial answer of the same work and compares bytes (sha256), canonical rows, page layout, index and bloom filter contents and pointer identity. A, E, G are also run alone with the buffer event sink installed; the traces are checked against the per-buffer reference counting automaton (and the extracted model). A case = one scenario instance; non-trivial = at least 2 worker goroutines ran and the compared output is non-empty; distinct by (scenario, GOMAXPROCS, seed, scale)."
 	scale := c.N(1, 2)
 	procs := []int{1, 2, 4, 16}
 	rounds := c.N(1, 5)
@@ -2814,15 +2817,20 @@ func run(c *core.Ctx) {
 			vmWrite(c)
 		}
 	}
-	order := []string{"A-lazy", "A-eager", "B-independent", "C-column-writers", "D-row-groups", "D-parent-pending", "E-async", "F-shared-schema", "G-retain-release", "H-row-shapes", "I-writer-configs", "J-fresh-types", "K-redundant-close", "mixed"}
+	order := []string{"A-lazy", "A-eager", "B-independent", "C-column-writers", "D-row-groups", "D-parent-pending", "E-async", "F-shared-schema", "G-retain-release", "H-row-shapes", "I-writer-configs", "J-fresh-types", "K-redundant-close", "L-bloom-first-check", "M-shared-codec", "mixed"}
 	sampled := 0
 	for round := 0; round < rounds; round++ {
 		for _, p := range procs {
 			for _, name := range order {
 				in := inst{Scenario: name, P: p, Seed: seedOf(), Scale: scale}
-				if isRaceChild && ((name == "H-row-shapes" && round > 0) || ((name == "I-writer-configs" || name == "J-fresh-types" || name == "K-redundant-close") && (round > 0 || p != 4))) {
+				if isRaceChild && ((name == "H-row-shapes" && round > 0) || ((name == "I-writer-configs" || name == "J-fresh-types" || name == "K-redundant-close" || name == "M-shared-codec") && (round > 0 || p != 4))) {
 					// under the race detector one instance shows what there is to
 					// see (a report does not need the accesses to collide in time)
+					continue
+				}
+				if name == "M-shared-codec" && p == 1 {
+					// calls of a shared Codec value only collide while two goroutines
+					// are inside the codec: nothing to see on one processor
 					continue
 				}
 				if name == "A-lazy" || name == "E-async" {
